@@ -128,7 +128,6 @@ theorem coroIter_step (I : Obj ι) (s : (coroIterO I).σ) (t : (nativeAwaitO I).
         rcases h : I.close s with ⟨s', o⟩
         rcases o with y | v | e
         · wsimp [h]
-          exact RIter.susp s'
         · wsimp [h]
         · cases e <;>
           wsimp [h]
@@ -193,7 +192,6 @@ theorem nativeAwait_congr_step (I J : Obj ι) (a : (nativeAwaitO I).σ) (b : (na
         subst ho
         rcases o with y | w | e
         · wsimp [hi, hj, hv]
-          exact RCongr.susp _ _ (hn y rfl)
         · wsimp [hi, hj, hv]
         · cases e <;> wsimp [hi, hj, hv]
       · obtain ⟨ho, hv, hn⟩ := h.step (.throw e)
@@ -282,5 +280,164 @@ theorem nativeAwait_congr {I J : Obj ι} (h : Equiv I J) (hv : I.view I.init = J
       · rw [run_cons, run_cons]; wsimp [hz, hv]
     | throw e => rw [run_cons, run_cons]; wsimp [hv]
     | close => rw [run_cons, run_cons]; wsimp [hv]
+
+end Asynkit.Proto
+
+namespace Asynkit.Proto
+variable {ι : Type}
+
+/-! ### CoroStart.__await__ -/
+
+macro "cssimp" "[" ts:Lean.Parser.Tactic.simpLemma,* "]" : tactic =>
+  `(tactic| simp [Obj.step, coroStartO, coroStartAwaitO, coroStartAwaitB, csView, CS.new, SR.ofOut,
+      nativeAwaitO, genObj, coroObj, envObj, nativeAwaitB,
+      relay, relayClose, normStop, envAfter, envClosed, EState.body, $ts,*])
+
+inductive RCS (I : Obj ι) : EState (Pc × CS I.σ) → EState I.σ → Prop where
+  | susp (cs : CS I.σ) : RCS I (.susp (.loop, cs)) (.susp cs.coro)
+
+theorem coroStart_step (I : Obj ι) (cs0 : CS I.σ) (a : (coroStartAwaitO I cs0).σ) (t : (nativeAwaitO I).σ)
+    (d : Drive) (hR : RCS I a t) :
+    ((coroStartAwaitO I cs0).step a d).2 = ((nativeAwaitO I).step t d).2 ∧
+    (coroStartAwaitO I cs0).view ((coroStartAwaitO I cs0).step a d).1
+      = (nativeAwaitO I).view ((nativeAwaitO I).step t d).1 ∧
+    (∀ y, ((coroStartAwaitO I cs0).step a d).2 = .yield y →
+      RCS I ((coroStartAwaitO I cs0).step a d).1 ((nativeAwaitO I).step t d).1) := by
+  cases hR with
+  | susp cs =>
+    obtain ⟨s, sr⟩ := cs
+    cases d with
+    | send v =>
+      rcases h : I.send s v with ⟨s', o⟩
+      rcases o with y | v | e
+      · cssimp [h]
+        exact RCS.susp ⟨s', sr⟩
+      · cssimp [h]
+      · cases e <;> cssimp [h]
+    | throw e =>
+      by_cases he : e = .genExit
+      · subst he
+        rcases h : I.close s with ⟨s', o⟩
+        rcases o with y | v | e
+        · cssimp [h]
+        · cssimp [h]
+        · cases e <;> cssimp [h]
+      · rcases h : I.throw s e with ⟨s', o⟩
+        rcases o with y | v | e'
+        · cases e <;> simp_all [Obj.step, coroStartAwaitO, coroStartAwaitB, csView,
+            nativeAwaitO, genObj, coroObj, envObj, nativeAwaitB, relay, normStop, envAfter, EState.body]
+          all_goals exact RCS.susp ⟨s', sr⟩
+        · cases e <;> simp_all [Obj.step, coroStartAwaitO, coroStartAwaitB, csView,
+            nativeAwaitO, genObj, coroObj, envObj, nativeAwaitB, relay, normStop, envAfter, EState.body]
+        · cases e <;> cases e' <;> simp_all [Obj.step, coroStartAwaitO, coroStartAwaitB, csView,
+            nativeAwaitO, genObj, coroObj, envObj, nativeAwaitB, relay, normStop, envAfter, EState.body]
+    | close =>
+      rcases h : I.close s with ⟨s', o⟩
+      rcases o with y | v | e
+      · cssimp [h]
+      · cssimp [h]
+      · cases e <;> cssimp [h]
+
+/-- once `__await__` is in its loop it is delegation to the (already started) coroutine -/
+theorem coroStart_loop_treq (I : Obj ι) (cs0 cs : CS I.σ) :
+    TrEq (coroStartAwaitO I cs0) (nativeAwaitO I) (.susp (.loop, cs)) (.susp cs.coro) := fun ds =>
+  run_eq_of_bisim _ _ (RCS I) (coroStart_step I cs0) ds _ _ (RCS.susp cs)
+
+/-- `CoroStart(x).__await__()` driven from its first `send(None)` equals `await x` driven from
+    its first `send(None)` (the eager start only moves the first inner resume earlier). -/
+theorem coroStart_equiv0 (I : Obj ι) : Equiv0 (coroStartO I) (nativeAwaitO I) := by
+  intro ds
+  rw [run_cons, run_cons]
+  rcases h : I.send I.init 0 with ⟨s', o⟩
+  rcases o with y | v | e
+  · have h1 : (coroStartO I).step (coroStartO I).init (.send 0)
+        = ((EState.susp (Pc.loop, (⟨s', none⟩ : CS I.σ)) : EState (Pc × CS I.σ)), Out.yield y) := by
+      cssimp [h]
+    have h2 : (nativeAwaitO I).step (nativeAwaitO I).init (.send 0)
+        = ((EState.susp s' : EState I.σ), Out.yield y) := by
+      cssimp [h]
+    rw [h1, h2]
+    simp only
+    congr 1
+    exact coroStart_loop_treq I (CS.new I) ⟨s', none⟩ ds
+  · cssimp [h]
+  · cases e <;> cssimp [h]
+
+end Asynkit.Proto
+
+namespace Asynkit.Proto
+variable {ι : Type}
+
+/-! ### delegation is idempotent: `await ref(x)` is `await x` -/
+
+inductive RIdem (I : Obj ι) : EState (EState I.σ) → EState I.σ → Prop where
+  | created (s : I.σ) : RIdem I (.created (.created s)) (.created s)
+  | susp (s : I.σ) : RIdem I (.susp (.susp s)) (.susp s)
+
+macro "isimp" "[" ts:Lean.Parser.Tactic.simpLemma,* "]" : tactic =>
+  `(tactic| simp [Obj.step, nativeAwaitO, coroObj, envObj, nativeAwaitB, normStop, envAfter, envClosed,
+      EState.body, $ts,*])
+
+theorem idem_step (I : Obj ι) (a : (nativeAwaitO (nativeAwaitO I)).σ) (t : (nativeAwaitO I).σ) (d : Drive)
+    (hR : RIdem I a t) :
+    ((nativeAwaitO (nativeAwaitO I)).step a d).2 = ((nativeAwaitO I).step t d).2 ∧
+    (nativeAwaitO (nativeAwaitO I)).view ((nativeAwaitO (nativeAwaitO I)).step a d).1
+      = (nativeAwaitO I).view ((nativeAwaitO I).step t d).1 ∧
+    (∀ y, ((nativeAwaitO (nativeAwaitO I)).step a d).2 = .yield y →
+      RIdem I ((nativeAwaitO (nativeAwaitO I)).step a d).1 ((nativeAwaitO I).step t d).1) := by
+  cases hR with
+  | created s =>
+    cases d with
+    | send v =>
+      by_cases hv : v = 0
+      · subst hv
+        rcases h : I.send s 0 with ⟨s', o⟩
+        rcases o with y | v | e
+        · isimp [h]
+          exact RIdem.susp s'
+        · isimp [h]
+        · cases e <;> isimp [h]
+      · isimp [hv]
+    | throw e => isimp []
+    | close => isimp []
+  | susp s =>
+    cases d with
+    | send v =>
+      rcases h : I.send s v with ⟨s', o⟩
+      rcases o with y | v | e
+      · isimp [h]
+        exact RIdem.susp s'
+      · isimp [h]
+      · cases e <;> isimp [h]
+    | throw e =>
+      by_cases he : e = .genExit
+      · subst he
+        rcases h : I.close s with ⟨s', o⟩
+        rcases o with y | v | e
+        · isimp [h]
+        · isimp [h]
+        · cases e <;> isimp [h]
+      · rcases h : I.throw s e with ⟨s', o⟩
+        rcases o with y | v | e'
+        · cases e <;> simp_all [Obj.step, nativeAwaitO, coroObj, envObj, nativeAwaitB, normStop, envAfter,
+            envClosed, EState.body]
+          all_goals exact RIdem.susp s'
+        · cases e <;> simp_all [Obj.step, nativeAwaitO, coroObj, envObj, nativeAwaitB, normStop, envAfter,
+            envClosed, EState.body]
+        · cases e <;> cases e' <;> simp_all [Obj.step, nativeAwaitO, coroObj, envObj, nativeAwaitB, normStop,
+            envAfter, envClosed, EState.body]
+    | close =>
+      rcases h : I.close s with ⟨s', o⟩
+      rcases o with y | v | e
+      · isimp [h]
+      · isimp [h]
+      · cases e <;> isimp [h]
+
+theorem nativeAwait_idem (I : Obj ι) : Equiv (nativeAwaitO (nativeAwaitO I)) (nativeAwaitO I) := fun ds =>
+  run_eq_of_bisim _ _ (RIdem I) (idem_step I) ds _ _ (RIdem.created _)
+
+theorem nativeAwait_idem_susp (I : Obj ι) (s : I.σ) :
+    TrEq (nativeAwaitO (nativeAwaitO I)) (nativeAwaitO I) (.susp (.susp s)) (.susp s) := fun ds =>
+  run_eq_of_bisim _ _ (RIdem I) (idem_step I) ds _ _ (RIdem.susp _)
 
 end Asynkit.Proto
